@@ -722,3 +722,25 @@ PROPS["C20"] = Prop(
     technique="runtime monitor: sanitizer-built tools run as processes, outputs compared with values computed through the library API from the generated command-line AST",
     level_text="exploration: generated command lines over the documented grammars on generated topologies; equivalence with the library and between options",
 )
+
+
+# what the second session added to each workload (DESIGN.md section 4.21); appended to the rule recorded in every evidence file
+ROUND2 = {
+    "C01": "directed cases at the first indexes (8 regression witnesses, every single (type, filter), seeded - thorough: all - pairs of (type, filter) over 3 rich descriptions); XML exports of generated machines with injected CPU-less NUMA nodes",
+    "C05": "blind exports right after a restrict; TAB/LF/CR in strings for a quarter of the case blocks",
+    "C06": "corpus/witness-xml documents unmutated at the first indexes, topology reused after each failure in four ways and compared with a fresh load; metamorphic sibling-swap case (class 4)",
+    "C07": "type-named interleaving lists of 2-3 ancestor types in any order",
+    "C09": "same_locality with subtype / name-prefix filters and I/O sources",
+    "C10": "validation cases on duplicates; live loads with a differently bound second thread and RESTRICT_TO_CPUBINDING",
+    "C11": "objects printed after group insertions / restrict / Misc insertion",
+    "C12": "info arrays emptied before the dup; identical info edits on both copies",
+    "C13": "terminal shared-memory carrier adopted by the writer and by a process forked before the write",
+    "C15": "HWLOC_CPUKINDS_RANKING strategy drawn per case; hardware-like info pairs",
+    "C16": "bulk pairs of hundreds of entries; attribute, os_index and allowed-set edits among the non-representable ones",
+    "C17": "registry-churn mode (class 3); directed distances + restrict before refresh",
+    "C18": "enumerated removals of cpu<K>/node<K> entries for the first CPUs (mode 4)",
+    "C19": "pre-existing file sizes around length / offset / offset+length; second adopter forked before the write",
+    "C20": "hwloc-distrib option combinations compared set by set; I/O-object locations; nodeset output below CPU-less packages; more malformed shapes",
+}
+for _k, _v in ROUND2.items():
+    PROPS[_k].rule += " Added later: " + _v + "."
